@@ -125,7 +125,7 @@ var (
 func Amount(t *rapid.T, label string, denom string) (*big.Int, string) {
 	classes := []string{"small", "typical", "typical", "burn-limit"}
 	if denom == world.Uhuge {
-		classes = []string{"small", "typical", "pow2", "pow2", "max"}
+		classes = []string{"small", "typical", "pow2", "pow2", "max", "word-boundary"}
 	}
 	class := pick(t, label+"/class", classes)
 	switch class {
@@ -135,6 +135,12 @@ func Amount(t *rapid.T, label string, denom string) (*big.Int, string) {
 		return big.NewInt(rapid.Int64Range(100, 1_000_000_000).Draw(t, label)), class
 	case "burn-limit":
 		return new(big.Int).Add(burnLimit, big.NewInt(int64(rapid.IntRange(-3, 3).Draw(t, label)))), class
+	case "word-boundary":
+		// around the 32-, 63- and 64-bit boundaries
+		e := pick(t, label+"/wexp", []uint{31, 32, 63, 63, 64, 64, 127, 128})
+		v := new(big.Int).Lsh(big.NewInt(1), e)
+		v.Add(v, big.NewInt(int64(rapid.IntRange(-1, 1).Draw(t, label+"/woff"))))
+		return v, class
 	case "pow2":
 		e := 60 + uniform(t, label+"/exp", 197)
 		v := new(big.Int).Lsh(big.NewInt(1), uint(e))
